@@ -121,6 +121,7 @@ func main() {
 	trace := flag.Bool("trace", false, "print the trace on replay")
 	flag.Parse()
 	runtime.GOMAXPROCS(1)
+	detsim.PanicFramePrefixes = []string{"github.com/boz/kcache.", "github.com/boz/go-lifecycle.", "github.com/boz/kcache/join.", "github.com/boz/kcache/types/"}
 
 	switch {
 	case *replayFile != "":
@@ -144,7 +145,7 @@ func main() {
 		}
 		rs := runSeed(*seed, idx)
 		rng := rand.New(rand.NewSource(rs))
-		sc := fam.Gen(rng, *prop, *tier, idx)
+		sc := fam.Gen(scen.GenCtx{Rng: rng, Prop: *prop, Tier: *tier, Idx: idx, Seed: *seed})
 		raw, err := json.Marshal(sc)
 		if err != nil {
 			fmt.Fprintf(os.Stderr, "worker: INFRA marshal scenario: %v\n", err)
